@@ -95,7 +95,8 @@ func c13Scenario(c c13Case) Scenario {
 		} else {
 			// the owner stays until the intruder has been refused, so the key's owner is never in doubt
 			ts = append(ts, Step{Op: "barrier", Barrier: "go", Parties: 3}, Step{Op: "barrier", Barrier: "calls_returned", Parties: 2},
-				Step{Op: "barrier", Barrier: "intruder_done", Parties: 2}, Step{Op: "close", Mode: c.CloseMode})
+				Step{Op: "barrier", Barrier: "intruder_done", Parties: 2}, Step{Op: "close", Mode: c.CloseMode},
+				Step{Op: "pause", PauseUs: 40000}, Step{Op: "barrier", Barrier: "victim_gone", Parties: 2})
 		}
 	}
 	if c.Fault == "manager_lag" {
@@ -141,7 +142,8 @@ func c13Scenario(c c13Case) Scenario {
 		ps = append(ps, Step{Op: "barrier", Barrier: "lag_over", Parties: 2})
 	}
 	if c.Fault == "duplicate_key" {
-		ps = append(ps, Step{Op: "barrier", Barrier: "calls_returned", Parties: 2})
+		// the fresh terminal may re-use the key only after its owner has really gone
+		ps = append(ps, Step{Op: "barrier", Barrier: "calls_returned", Parties: 2}, Step{Op: "barrier", Barrier: "victim_gone", Parties: 2})
 	}
 	ps = append(ps, Step{Op: "pause", PauseUs: 30000}, Step{Op: "barrier", Barrier: "after_fault", Parties: 2}, Step{Op: "barrier", Barrier: "fresh_joined", Parties: 2},
 		Step{Op: "send", Key: fresh.key(), Cmd: 0x8104, Body: []byte{0xee}, TimeoutMs: 1500, CallID: 100},
